@@ -20,9 +20,15 @@ def main():
     args = ap.parse_args()
     seed = int(os.environ.get("VERIF_SEED", "1"))
     if args.prop not in REGISTRY:
-        print(f"unknown property {args.prop}")
-        return 2
+        # convention: harness/cxx.py defines class Cxx
+        if os.path.exists(os.path.join(os.path.dirname(__file__), args.prop.lower() + ".py")):
+            REGISTRY[args.prop] = ("harness." + args.prop.lower(), args.prop)
+        else:
+            print(f"unknown property {args.prop}")
+            return 2
     try:
+        if os.environ.get("PYLIFE_REPO"):   # a scratch copy of the repository instead of /repo
+            sys.path.insert(0, os.path.join(os.environ["PYLIFE_REPO"], "src"))
         from harness import core
         modname, clsname = REGISTRY[args.prop]
         mod = importlib.import_module(modname)
